@@ -175,7 +175,8 @@ class Interp:
         elif k == 'wait':
             return ('yield', op[1])
         elif k == 'yield':
-            return ('yield', op[1])
+            # ('inf': the infinite delta - never rescheduled)
+            return ('yield', float('inf') if op[1] == 'inf' else op[1])
         elif k == 'play':
             r = self.routines[op[1]]
             q = op[3]
